@@ -1004,6 +1004,11 @@ class Path:
         spec = self.cfg.loop_spec(self, self.func_stack[-1], self.loop_label(s))
         if spec is None:
             raise Unsupported(f'for loop over symbolic iterable without invariant at {self.cur_loc}')
+        if isinstance(it, Unknown) and self.skeleton:
+            # skeleton profile: an uninterpreted iterable yields any number of uninterpreted items
+            self.abstraction_used = True
+            self.cut_loop(s, spec, lambda: Unknown('iter'), lambda: self.assign(s.target, Unknown('item')), ())
+            return
         fr = self.scope[0]
         if isinstance(it, SymRange):
             itname = '_it'
@@ -1186,12 +1191,24 @@ class Path:
 
     def ev_JoinedStr(self, n):
         # f-strings only feed log lines / exception messages
+        # (contract kwarg fstrings='eval': a replacement field without conversion/format spec whose value
+        # is a concrete str/int is formatted exactly -- needed where a name is computed for getattr dispatch)
+        evaluate = getattr(getattr(self.cfg, 'top', None), 'extra', {}).get('fstrings') == 'eval'
         parts = []
+        opaque = False
         for v in n.values:
             if isinstance(v, ast.Constant):
                 parts.append(v.value)
+            elif evaluate:
+                x = self.eval(v.value)
+                if v.conversion == -1 and v.format_spec is None and type(x) in (str, int):
+                    parts.append(str(x))
+                else:
+                    opaque = True
             else:
                 return OpaqueStr()
+        if opaque:
+            return OpaqueStr()
         return ''.join(parts)
 
     def ev_Attribute(self, n):
